@@ -200,14 +200,14 @@ PLANS = {
                      G("roundtrip", 100, 2000, "TraceCursor", "TraceCursor.cfg", extra=["--wsched", "rand5"])]),
     "C02": dict(level="model_checking", assumptions=TRUST,
                 mc=[MC("MCBlock", "MCBlock.cfg", workers=8), MC("MCBytes", "MCBytes.cfg", workers=8)],
-                gen=[G("seeks", 64, 2000, "TraceCursor", "TraceCursor.cfg")]),
+                gen=[G("seeks", 96, 2000, "TraceCursor", "TraceCursor.cfg")]),
     "C04": dict(level="model_checking", assumptions=TRUST,
                 mc=[MC("MCIter", "MCIter_quick.cfg", workers=4), MC("MCIter", "MCIter.cfg", workers=4, quick=False)],
-                gen=[G("ranges", 96, 3000, "TraceIter", "TraceIter.cfg")]),
+                gen=[G("ranges", 112, 3000, "TraceIter", "TraceIter.cfg")]),
     "C05": dict(level="model_checking", assumptions=TRUST,
                 mc=[MC("MCIter", "MCIter_quick.cfg", workers=4), MC("MCIter", "MCIter.cfg", workers=4, quick=False),
                     MC("MCBytes", "MCBytes.cfg", workers=8)],
-                gen=[G("prefixes", 96, 3000, "TraceIter", "TraceIter.cfg")]),
+                gen=[G("prefixes", 112, 3000, "TraceIter", "TraceIter.cfg")]),
     "C10": dict(level="model_checking", assumptions=TRUST + ["V1 files are built by replacing the V2 trailer of an index_levels=0 file with an independently encoded 21-byte V1 trailer"],
                 gen=[G("roundtrip_v1", 150, 5000, "TraceCursor", "TraceCursor.cfg"),
                      # the V1 trailer read in short pieces / with interruptions
@@ -219,7 +219,9 @@ PLANS = {
     "C16": dict(level="model_checking", assumptions=TRUST + ["block loads are counted as absolute seeks on the instrumented source (every block load is preceded by exactly one)"],
                 gen=[G("history", 100, 3000, "TraceCursor", "TraceCursor_C16.cfg"),
                      G("seeks", 32, 800, "TraceCursor", "TraceCursor_C16.cfg"),
-                     G("big", 16, 200, "TraceCursor", "TraceCursor_C16.cfg")],
+                     G("big", 16, 200, "TraceCursor", "TraceCursor_C16.cfg"),
+                     # the bound also holds while a source fails (no silent retries of block loads)
+                     G("faults", 32, 600, "TraceFaults", "TraceFaults_C16.cfg")],
                 mc=[MC("MCCursor_t15", "MCCursor_t15_fixed.cfg", workers=8),
                     MC("MCCursor_t59", "MCCursor_t59_fixed.cfg", workers=8),
                     MC("MCCursor_t50", "MCCursor_t50_fixed.cfg", workers=8, quick=False),
@@ -228,7 +230,9 @@ PLANS = {
                 mc=[MC("MCMerger", "MCMerger.cfg", workers=8), MC("MCMerger", "MCMerger_4x3.cfg", workers=8),
                     MC("MCMerger", "MCMerger_revtie.cfg", workers=8, expect="fail:OutPrefixOk")],
                 extra=[merger_model(400)],
-                gen=[G("merge", 400, 15000, "TraceMerger", "TraceMerger.cfg")]),
+                gen=[G("merge", 400, 15000, "TraceMerger", "TraceMerger.cfg"),
+                     # a key held by sources whose positions exceed 16 bits (65 540 sources)
+                     G("merge_many", 1, 4, "TraceMerger", "TraceMerger.cfg", heavy=False)]),
     "C07": dict(level="model_checking", assumptions=TRUST + ["hook H2 lowers the minimum budget / initial capacity for the small-scale runs; rayon schedules are sampled (pool sizes), not enumerated"],
                 mc=[MC("MCSorter", "MCSorter_content.cfg", workers=8), MC("MCSorter", "MCSorter_content1.cfg", workers=8)],
                 gen=[G("sorter", 320, 12000, "TraceSorter", "TraceSorter_C07.cfg"),
@@ -254,6 +258,7 @@ PLANS = {
                 gen=[G("wsched", 120, 4000, "TraceIO", "TraceIO.cfg"),
                      G("roundtrip", 100, 3000, "TraceCursor", "TraceCursor.cfg", extra=["--rsched", "rand3", "--wsched", "rand5"]),
                      G("roundtrip", 60, 1000, "TraceCursor", "TraceCursor.cfg", extra=["--rsched", "one", "--wsched", "lenm1"]),
+                     G("roundtrip", 40, 600, "TraceCursor", "TraceCursor.cfg", extra=["--rsched", "oneintr", "--wsched", "oneintr"]),
                      G("format", 60, 2000, "TraceLayout", "TraceLayout_C09.cfg", extra=["--wsched", "rand11"]),
                      G("seeks", 24, 500, "TraceCursor", "TraceCursor.cfg", extra=["--rsched", "rand7"]),
                      G("history", 32, 1000, "TraceCursor", "TraceCursor.cfg", extra=["--rsched", "intr"]),
